@@ -7,8 +7,12 @@
 //! final response, copy of the INVITE, re-INVITE at absolute instants). Dimensions of the
 //! world besides the two scripts: transport reliability, source port of later messages, how long the application
 //! leaves the session undriven, a send latency (every `Transport::send` stays pending N ms after its bytes went
-//! out, so the receive path runs while a responding call is suspended), and a send-fault plan (the k-th send call
-//! is refused with an io::Error; the refused bytes are kept so that the oracle knows whose answer it was).
+//! out, so the receive path runs while a responding call is suspended), a send-fault plan (the k-th send call
+//! is refused with an io::Error; the refused bytes are kept so that the oracle knows whose answer it was), the
+//! kind of client (`legacy_branch`: an RFC 2543 client whose Via branches lack the magic cookie, so that INVITE,
+//! CANCEL and ACK are matched by the RFC 2543 rules) and the extension headers of the INVITE (`invite_ext`:
+//! session-timer negotiation in every wire-legal shape of `INVITE_EXT`, including Min-SE / Session-Expires values
+//! beyond 32 bit or with generic-params, with and without `Supported: timer`).
 //! Oracle: the wire log grouped by (branch, CSeq method), the results of the acceptor calls, virtual timestamps, and
 //! what the application sees of the session after an accept ("a CANCEL that no longer matches a pending INVITE
 //! changes nothing": the session does not end before the peer's BYE, the first BYE reaches the application and
@@ -115,6 +119,49 @@ pub struct Case {
     /// hop-by-hop and carry one Via
     #[serde(default)]
     pub via_hops: u8,
+    /// the peer is an RFC 2543 client: the branch parameters of its Via values lack the magic cookie `z9hG4bK`
+    /// (RFC 3261 17.2.3: the server then matches on Request-URI / To / From / Call-ID / CSeq / top Via instead);
+    /// the CANCEL and the ACK of a non-2xx carry the INVITE's top Via all the same
+    #[serde(default)]
+    pub legacy_branch: bool,
+    /// extension headers of the INVITE: index into `INVITE_EXT` (0 = none): session-timer negotiation (RFC 4028)
+    /// in its wire-legal shapes, including values a typed decoder does not take
+    #[serde(default)]
+    pub invite_ext: u8,
+}
+
+/// Header sets an INVITE may carry besides `Supported: 100rel` (all legal by the RFC 4028 grammar: `Min-SE` and
+/// `Session-Expires` are delta-seconds = 1*DIGIT followed by generic-params; nothing bounds the digits to 32 bit)
+pub const INVITE_EXT: &[&[&str]] = &[
+    &[],
+    &["Supported: timer"],
+    &["Supported: timer", "Session-Expires: 1800", "Min-SE: 90"],
+    &["Supported: timer", "Min-SE: 4294967296"],
+    &["Supported: timer", "Min-SE: 90;purpose=test"],
+    &["Min-SE: 4294967296", "Session-Expires: 1800"],
+    &["Supported: timer", "Session-Expires: 3600;refresher=uas", "Min-SE: 120"],
+    &["Supported: timer", "Session-Expires: 99999999999;refresher=uac"],
+    &["Supported: timer, replaces", "Session-Expires: 1800;refresher=uac;x=1", "Min-SE: 00000000000000090"],
+];
+
+/// does header set `ext` offer the timer extension together with a `Min-SE` / `Session-Expires` value outside
+/// 32 bit or with a generic-param (class label only)
+fn ext_is_unusual(ext: u8) -> bool {
+    matches!(ext as usize % INVITE_EXT.len(), 3 | 4 | 7 | 8)
+}
+
+/// top-Via branch of the INVITE of a case
+pub fn inv_branch(case: &Case) -> String {
+    br(case, "invite")
+}
+
+/// branch parameter the peer of `case` uses for the request named `name`
+pub fn br(case: &Case, name: &str) -> String {
+    if case.legacy_branch {
+        format!("c12{name}")
+    } else {
+        format!("z9hG4bKc12{name}")
+    }
 }
 
 // ---------------------------------------------------------------------------------------------
@@ -152,19 +199,19 @@ impl Layer for AcceptLayer {
 /// (a) keeps every send pending for `delay_ms` after the bytes went out, (b) refuses the sends whose ordinal is in
 /// the plan with an io::Error *and keeps the refused bytes*, so that the oracle knows which request's response the
 /// transport would not take.
-struct PlanDatagram {
-    reliable: bool,
-    bound: SocketAddr,
-    log: WireLog,
-    delay_ms: u64,
-    plan: Arc<Mutex<SendPlan>>,
+pub struct PlanDatagram {
+    pub reliable: bool,
+    pub bound: SocketAddr,
+    pub log: WireLog,
+    pub delay_ms: u64,
+    pub plan: Arc<Mutex<SendPlan>>,
 }
 
 #[derive(Default)]
-struct SendPlan {
-    calls: usize,
-    fail: BTreeSet<usize>,
-    refused: Vec<Sent>,
+pub struct SendPlan {
+    pub calls: usize,
+    pub fail: BTreeSet<usize>,
+    pub refused: Vec<Sent>,
 }
 
 impl std::fmt::Debug for PlanDatagram {
@@ -251,17 +298,19 @@ fn via_list(branch: &str, hops: u8) -> Vec<String> {
     v
 }
 
-fn invite_bytes(hops: u8) -> Vec<u8> {
+fn invite_bytes(case: &Case) -> Vec<u8> {
+    let mut extra: Vec<String> = vec!["Contact: <sip:peer@192.0.2.9>".into(), "Supported: 100rel".into()];
+    extra.extend(INVITE_EXT[case.invite_ext as usize % INVITE_EXT.len()].iter().map(|h| h.to_string()));
     request_text(
         "INVITE",
         "sip:uas@10.0.0.1",
-        &via_list(BRANCH, hops),
+        &via_list(&inv_branch(case), case.via_hops),
         "<sip:peer@192.0.2.9>;tag=peertag",
         "<sip:uas@10.0.0.1>",
         "c12-call",
         INVITE_CSEQ,
         "INVITE",
-        &["Contact: <sip:peer@192.0.2.9>".into(), "Supported: 100rel".into()],
+        &extra,
         b"",
     )
 }
@@ -316,7 +365,8 @@ pub fn run(case: &Case, horizon: u64) -> Observed {
         let endpoint = b.build();
         let peer: SocketAddr = "192.0.2.9:5060".parse().unwrap();
         let later_source: SocketAddr = if case.alt_source { "192.0.2.9:5099".parse().unwrap() } else { peer };
-        let inv = invite_bytes(case.via_hops);
+        let inv = invite_bytes(&case);
+        let ib = inv_branch(&case);
         inject(&endpoint, &tp, peer, &inv);
         settle().await;
         let app_results: Arc<Mutex<Vec<AppResult>>> = Default::default();
@@ -478,7 +528,7 @@ pub fn run(case: &Case, horizon: u64) -> Observed {
                 NetOp::Cancel { branch_ok, cseq_ok } => request_text(
                     "CANCEL",
                     "sip:uas@10.0.0.1",
-                    &[format!("SIP/2.0/UDP 192.0.2.9:5060;branch={}", if *branch_ok { BRANCH.to_string() } else { format!("{BRANCH}x") })],
+                    &[format!("SIP/2.0/UDP 192.0.2.9:5060;branch={}", if *branch_ok { ib.clone() } else { format!("{ib}x") })],
                     "<sip:peer@192.0.2.9>;tag=peertag",
                     "<sip:uas@10.0.0.1>",
                     "c12-call",
@@ -489,11 +539,11 @@ pub fn run(case: &Case, horizon: u64) -> Observed {
                 ),
                 NetOp::Bye => {
                     next_cseq += 1;
-                    in_dialog(case.via_hops, "BYE", &format!("z9hG4bKc12bye{n}"), next_cseq, &local_tag, &[format!("X-Seq: n{n}")])
+                    in_dialog(case.via_hops, "BYE", &br(&case, &format!("bye{n}")), next_cseq, &local_tag, &[format!("X-Seq: n{n}")])
                 }
                 NetOp::ReInvite => {
                     next_cseq += 1;
-                    in_dialog(case.via_hops, "INVITE", &format!("z9hG4bKc12reinv{n}"), next_cseq, &local_tag, &[format!("X-Seq: n{n}"), "Contact: <sip:peer@192.0.2.9>".into()])
+                    in_dialog(case.via_hops, "INVITE", &br(&case, &format!("reinv{n}")), next_cseq, &local_tag, &[format!("X-Seq: n{n}"), "Contact: <sip:peer@192.0.2.9>".into()])
                 }
                 NetOp::Prack { rack_ok, cseq_ok } => {
                     let r = rseq.unwrap_or(1);
@@ -501,7 +551,7 @@ pub fn run(case: &Case, horizon: u64) -> Observed {
                     in_dialog(
                         case.via_hops,
                         "PRACK",
-                        &format!("z9hG4bKc12prack{n}"),
+                        &br(&case, &format!("prack{n}")),
                         next_cseq,
                         &local_tag,
                         &[
@@ -513,7 +563,7 @@ pub fn run(case: &Case, horizon: u64) -> Observed {
                 NetOp::Ack { cseq_ok } => in_dialog(
                     case.via_hops,
                     "ACK",
-                    &format!("z9hG4bKc12ack{n}"),
+                    &br(&case, &format!("ack{n}")),
                     if *cseq_ok { INVITE_CSEQ } else { INVITE_CSEQ - 1 },
                     &local_tag,
                     &[format!("X-Seq: n{n}")],
@@ -523,7 +573,7 @@ pub fn run(case: &Case, horizon: u64) -> Observed {
                         .parsed()
                         .into_iter()
                         .filter_map(|(_, m)| m)
-                        .find(|m| !m.is_request() && m.status().unwrap_or(0) >= 300 && m.via_branch().as_deref() == Some(BRANCH) && m.cseq().map_or(false, |c| c.1 == "INVITE"))
+                        .find(|m| !m.is_request() && m.status().unwrap_or(0) >= 300 && m.via_branch().as_deref() == Some(ib.as_str()) && m.cseq().map_or(false, |c| c.1 == "INVITE"))
                         .and_then(|m| m.header("to").map(str::to_string));
                     let Some(to) = to else {
                         skipped_net.push(n - 1);
@@ -532,7 +582,7 @@ pub fn run(case: &Case, horizon: u64) -> Observed {
                     request_text(
                         "ACK",
                         "sip:uas@10.0.0.1",
-                        &[format!("SIP/2.0/UDP 192.0.2.9:5060;branch={BRANCH}")],
+                        &[format!("SIP/2.0/UDP 192.0.2.9:5060;branch={ib}")],
                         "<sip:peer@192.0.2.9>;tag=peertag",
                         &to,
                         "c12-call",
@@ -548,7 +598,7 @@ pub fn run(case: &Case, horizon: u64) -> Observed {
                         continue;
                     };
                     next_cseq += 1;
-                    in_dialog(case.via_hops, "PRACK", &format!("z9hG4bKc12prack{n}"), next_cseq, &local_tag, &[format!("RAck: {r} {INVITE_CSEQ} INVITE"), format!("X-Seq: n{n}")])
+                    in_dialog(case.via_hops, "PRACK", &br(&case, &format!("prack{n}")), next_cseq, &local_tag, &[format!("RAck: {r} {INVITE_CSEQ} INVITE"), format!("X-Seq: n{n}")])
                 }
             };
             inject(&endpoint, &tp, later_source, &bytes);
@@ -1076,8 +1126,14 @@ pub fn race_strategy() -> BoxedStrategy<Case> {
         prop_oneof![3 => Just(0u64), 1 => Just(2u64)],
         // the transport refuses one send (any of the first six of the case)
         prop_oneof![3 => Just(None), 1 => (0u8..6).prop_map(Some)],
+        (
+            // the peer is an RFC 2543 client (no magic cookie in its Via branches)
+            prop_oneof![3 => Just(false), 1 => Just(true)],
+            // the INVITE carries session-timer headers
+            prop_oneof![2 => Just(0u8), 1 => 1u8..(INVITE_EXT.len() as u8)],
+        ),
     )
-        .prop_map(|(app, net, net_first, rng, reliable, alt_source, send_delay_ms, fault)| {
+        .prop_map(|(app, net, net_first, rng, reliable, alt_source, send_delay_ms, fault, (legacy_branch, invite_ext))| {
             let mut app: Vec<(u64, AppOp)> = app.into_iter().map(|(s, o)| (RACE_TIMES[pick_idx(s, RACE_TIMES.len())], o)).collect();
             app.sort_by_key(|a| a.0);
             let mut net: Vec<(u64, NetOp)> = net.into_iter().map(|(s, o)| (RACE_TIMES[pick_idx(s, RACE_TIMES.len())], o)).collect();
@@ -1095,7 +1151,21 @@ pub fn race_strategy() -> BoxedStrategy<Case> {
                     _ => true,
                 });
             }
-            Case { app, net, net_first, rng, reliable, alt_source, session_busy_ms: 0, send_delay_ms, fail_sends: fault.into_iter().collect(), via_hops: 0 }
+            if legacy_branch {
+                // RFC 2543 matching has no branch to tell two Via values of one client apart: a CANCEL that is to
+                // miss the INVITE differs in the CSeq number here (see assumptions)
+                net.retain(|(_, o)| !matches!(o, NetOp::Cancel { branch_ok: false, .. }));
+                // an ACK with the INVITE's CSeq number from such a client is, by the RFC 2543 rules, the ACK of
+                // whatever final response the INVITE got (or gets); a copy of the INVITE after it is a new request
+                // (ezk keeps no Confirmed state, see C08): no copies of the INVITE next to such an ACK
+                if net.iter().any(|(_, o)| *o == NetOp::Ack { cseq_ok: true }) {
+                    net.retain(|(_, o)| *o != NetOp::DupInvite);
+                }
+                if net.is_empty() {
+                    net.push((5, NetOp::Cancel { branch_ok: true, cseq_ok: true }));
+                }
+            }
+            Case { app, net, net_first, rng, reliable, alt_source, session_busy_ms: 0, send_delay_ms, fail_sends: fault.into_iter().collect(), via_hops: 0, legacy_branch, invite_ext }
         })
         .boxed()
 }
@@ -1190,6 +1260,56 @@ pub fn established_cases(tier: Tier) -> Vec<Case> {
                         out.push(Case { app, net, net_first, rng: k, reliable, alt_source, ..Default::default() });
                     }
                 }
+            }
+        }
+    }
+    out
+}
+
+/// The pending-INVITE and accept histories of `send_faults` / `established_then_used` (without faults) for the other
+/// shapes an INVITE arrives in: from an RFC 2543 client (no magic cookie in any Via branch of the peer; CANCEL and
+/// ACK carry the INVITE's Via), and / or with session-timer headers (each entry of `INVITE_EXT`). Judged by
+/// `check_race`: the CANCEL / BYE still terminates the pending INVITE (200 + 487), an accept still sends its one 2xx
+/// and the session lives until the BYE.
+pub fn variant_cases(tier: Tier) -> Vec<Case> {
+    let cancel = NetOp::Cancel { branch_ok: true, cseq_ok: true };
+    let ack = NetOp::Ack { cseq_ok: true };
+    // (application ops, network ops)
+    let shapes: Vec<(Vec<(u64, AppOp)>, Vec<(u64, NetOp)>)> = vec![
+        (vec![], vec![(5, cancel)]),
+        (vec![(1, AppOp::Prov180)], vec![(5, cancel)]),
+        (vec![(1, AppOp::Prov180)], vec![(5, NetOp::Bye)]),
+        (vec![(1, AppOp::Prov180)], vec![(5, cancel), (6, NetOp::Bye)]),
+        (vec![(1, AppOp::Prov180)], vec![(5, NetOp::DupInvite), (6, cancel), (506, cancel)]),
+        (vec![(1, AppOp::Prov180)], vec![(5, NetOp::Cancel { branch_ok: true, cseq_ok: false }), (6, cancel)]),
+        (vec![(1, AppOp::Prov180), (7, AppOp::Accept)], vec![(5, cancel)]),
+        (vec![(1, AppOp::Prov180), (5, AppOp::Reject(486))], vec![(5, cancel), (300, NetOp::AckFinal)]),
+        (vec![(1, AppOp::Prov180), (5, AppOp::Reject(603))], vec![(1505, NetOp::AckFinal), (1600, cancel)]),
+        (vec![(0, AppOp::Accept)], vec![(1, ack), (1000, NetOp::Bye)]),
+        (vec![(1, AppOp::Prov180), (30, AppOp::Accept)], vec![(280, ack), (900, NetOp::ReInvite), (1000, NetOp::Bye)]),
+        (vec![(1, AppOp::Prov180), (30, AppOp::Accept)], vec![(31, cancel), (730, ack), (1700, NetOp::Bye)]),
+        (vec![(0, AppOp::Accept)], vec![(0, cancel), (250, ack), (TIMEOUT + 5000, NetOp::Bye)]),
+        (vec![(0, AppOp::Accept)], vec![(1000, NetOp::Bye)]),
+    ];
+    let mut variants: Vec<(bool, u8)> = vec![(true, 0)];
+    for e in 1..INVITE_EXT.len() as u8 {
+        variants.push((false, e));
+    }
+    variants.extend([(true, 2), (true, 3)]);
+    let mut out = vec![];
+    let mut k = 0u8;
+    for (legacy_branch, invite_ext) in variants {
+        for (app, net) in &shapes {
+            for (reliable, net_first, alt_source) in [(false, false, false), (false, true, false), (true, false, false), (false, false, true)] {
+                if tier == Tier::Quick && (net_first || alt_source) && !legacy_branch {
+                    continue;
+                }
+                if reliable && (net.iter().any(|(_, o)| *o == NetOp::DupInvite) || net.iter().filter(|(_, o)| matches!(o, NetOp::Cancel { .. })).count() > 1) {
+                    // (over a reliable transport nothing is sent twice)
+                    continue;
+                }
+                k = k.wrapping_add(29);
+                out.push(Case { app: app.clone(), net: net.clone(), net_first, rng: k, reliable, alt_source, legacy_branch, invite_ext, ..Default::default() });
             }
         }
     }
@@ -1382,7 +1502,8 @@ pub fn check_race(case: &Case, out: &mut CaseOut) {
     out.note = Some(describe(&obs));
 
     // INVITE finals
-    let inv: Vec<(&Sent, &WireMsg)> = responses_for(&obs, BRANCH, INVITE_CSEQ, "INVITE");
+    let ib = inv_branch(case);
+    let inv: Vec<(&Sent, &WireMsg)> = responses_for(&obs, &ib, INVITE_CSEQ, "INVITE");
     let finals: Vec<&(&Sent, &WireMsg)> = inv.iter().filter(|(_, m)| m.status().unwrap_or(0) >= 200).collect();
     // final responses the transport refused to take (send-fault plan) count as the stack's answer: it decided and
     // tried, what a refused datagram means for "is sent" is outside the statement
@@ -1395,7 +1516,7 @@ pub fn check_race(case: &Case, out: &mut CaseOut) {
             .filter(|c| *c >= 200)
             .collect()
     };
-    let mut codes: Vec<u16> = finals.iter().filter_map(|(_, m)| m.status()).chain(refused_for(BRANCH, "INVITE")).collect();
+    let mut codes: Vec<u16> = finals.iter().filter_map(|(_, m)| m.status()).chain(refused_for(&ib, "INVITE")).collect();
     codes.sort();
     codes.dedup();
 
@@ -1419,7 +1540,9 @@ pub fn check_race(case: &Case, out: &mut CaseOut) {
     }
     // (a CANCEL on the INVITE's branch that follows an earlier CANCEL on that branch is, for RFC 3261
     // matching, a retransmission of the earlier one whatever its CSeq: only the first one can decide)
-    let first_cancel_on_branch = case.net.iter().position(|(_, o)| matches!(o, NetOp::Cancel { branch_ok: true, .. }));
+    // (for RFC 2543 matching the CSeq number is part of the transaction's identity: a CANCEL with another CSeq is
+    // another transaction, the first CANCEL that matches in both decides)
+    let first_cancel_on_branch = case.net.iter().position(|(_, o)| matches!(o, NetOp::Cancel { branch_ok: true, cseq_ok } if *cseq_ok || !case.legacy_branch));
     for (i, (t, op)) in case.net.iter().enumerate() {
         match op {
             NetOp::Cancel { branch_ok: true, cseq_ok: true } if first_cancel_on_branch == Some(i) => dec.push((*t, D::Cancel)),
@@ -1479,6 +1602,15 @@ pub fn check_race(case: &Case, out: &mut CaseOut) {
     if !dec.is_empty() && !dropped_first {
         if codes.is_empty() {
             out.fail("c12.final/none", format!("decisive events {dec:?} but the INVITE got no final response"));
+            // the accept was (one of) the first decision(s), it failed and not even an attempt to send a final
+            // response was made by anybody: say so
+            if admissible.contains(&D::Accept) {
+                if let Some(a) = obs.app.iter().find(|a| a.op == AppOp::Accept) {
+                    if a.outcome != "ok" && a.outcome != "timeout" && a.outcome != "terminated" {
+                        out.fail("c12.accept/failed-without-any-final-response", format!("respond_success at {} ms returned {:?}; no final response of the INVITE was sent or tried (INVITE header set {:?})", a.started, a.outcome, INVITE_EXT[case.invite_ext as usize % INVITE_EXT.len()]));
+                    }
+                }
+            }
         } else if !want_codes.contains(&codes[0]) {
             out.fail(
                 "c12.final/wrong-winner",
@@ -1494,12 +1626,13 @@ pub fn check_race(case: &Case, out: &mut CaseOut) {
         n += 1;
         match op {
             NetOp::Cancel { branch_ok, cseq_ok } => {
-                let branch = if *branch_ok { BRANCH.to_string() } else { format!("{BRANCH}x") };
+                let branch = if *branch_ok { ib.clone() } else { format!("{ib}x") };
                 let cseq = if *cseq_ok { INVITE_CSEQ } else { INVITE_CSEQ + 1 };
                 // CANCELs sharing a branch are one transaction for RFC 3261 matching (a later one is absorbed as a
                 // retransmission of the first, whatever its CSeq): judge them by branch
-                let same_branch = case.net.iter().filter(|(_, o)| matches!(o, NetOp::Cancel { branch_ok: b, .. } if b == branch_ok)).count();
-                let resp = responses_for(&obs, &branch, if same_branch > 1 { 0 } else { cseq }, "CANCEL");
+                // (RFC 2543 matching: by branch-less top Via AND CSeq number)
+                let same_branch = case.net.iter().filter(|(_, o)| matches!(o, NetOp::Cancel { branch_ok: b, cseq_ok: c } if b == branch_ok && (c == cseq_ok || !case.legacy_branch))).count();
+                let resp = responses_for(&obs, &branch, if same_branch > 1 && !case.legacy_branch { 0 } else { cseq }, "CANCEL");
                 let mut c: Vec<u16> = resp.iter().filter_map(|(_, m)| m.status()).filter(|c| *c >= 200).collect();
                 c.sort();
                 c.dedup();
@@ -1520,12 +1653,15 @@ pub fn check_race(case: &Case, out: &mut CaseOut) {
                     out.fail("c12.cancel/matching-not-200", format!("CANCEL that terminated the INVITE answered {c:?}"));
                 } else if c.iter().any(|x| *x != 200 && *x != 481) {
                     out.fail("c12.cancel/unexpected-code", format!("CANCEL at {t} answered {c:?} (allowed: 200, 481)"));
+                } else if matching && admissible == vec![D::Cancel] && first_cancel_on_branch == Some(n as usize - 1) && winner != Some(487) && c == vec![481] {
+                    // (only together with c12.final/*: the CANCEL was the one first decision, the INVITE was pending)
+                    out.fail("c12.cancel/matching-cancel-of-the-pending-invite-answered-481", format!("CANCEL at {t} (same top Via, CSeq number, Call-ID, tags as the pending INVITE; RFC 2543 peer: {}) was answered 481 and the INVITE got {winner:?}", case.legacy_branch));
                 } else if !matching && winner == Some(487) && !admissible.iter().any(|d| matches!(d, D::Cancel | D::Bye)) {
                     out.fail("c12.cancel/non-matching-cancelled-invite", "INVITE got 487 although only a non-matching CANCEL arrived");
                 }
             }
             NetOp::Bye => {
-                let branch = format!("z9hG4bKc12bye{n}");
+                let branch = br(case, &format!("bye{n}"));
                 let resp = responses_for(&obs, &branch, 0, "BYE");
                 let c: Vec<u16> = resp.iter().filter_map(|(_, m)| m.status()).filter(|c| *c >= 200).collect();
                 let first_bye = case.net.iter().position(|(_, o)| *o == NetOp::Bye) == Some(n as usize - 1);
@@ -1576,7 +1712,7 @@ pub fn check_race(case: &Case, out: &mut CaseOut) {
         }
         if let Some(i) = first_bye {
             let (t, _) = case.net[i];
-            let branch = format!("z9hG4bKc12bye{}", i + 1);
+            let branch = br(case, &format!("bye{}", i + 1));
             let c: Vec<u16> = responses_for(&obs, &branch, 0, "BYE").iter().filter_map(|(_, m)| m.status()).filter(|c| *c >= 200).collect();
             // (a BYE that arrives before the ACK waits for the accept to finish; it is judged all the same)
             if !refused_for(&branch, "BYE").is_empty() {
@@ -1622,6 +1758,18 @@ pub fn check_race(case: &Case, out: &mut CaseOut) {
     if case.send_delay_ms > 0 {
         out.class("send stays pending (back-pressure)");
     }
+    if case.legacy_branch {
+        out.class("RFC 2543 peer (Via branches without the magic cookie)");
+        if winner == Some(487) && admissible.contains(&D::Cancel) {
+            out.class("RFC 2543 peer: CANCEL terminated the pending INVITE");
+        }
+    }
+    if case.invite_ext as usize % INVITE_EXT.len() != 0 {
+        out.class("INVITE with session-timer headers (Supported: timer / Min-SE / Session-Expires)");
+        if ext_is_unusual(case.invite_ext) && case.app.iter().any(|(_, o)| *o == AppOp::Accept) {
+            out.class("accept of an INVITE whose Min-SE / Session-Expires is beyond 32 bit or has a generic-param");
+        }
+    }
     let mut fault_hit = false;
     for (_, m) in &obs.refused {
         fault_hit = true;
@@ -1635,7 +1783,8 @@ pub fn check_race(case: &Case, out: &mut CaseOut) {
             _ => out.class("transport refused another message"),
         }
     }
-    if close || admissible.len() > 1 || fault_hit || late_cancel_used {
+    let odd_invite = case.legacy_branch || case.invite_ext as usize % INVITE_EXT.len() != 0;
+    if close || admissible.len() > 1 || fault_hit || late_cancel_used || (odd_invite && !dec.is_empty()) {
         out.nontrivial(case);
     }
     let _ = (T1, obs.cancellables_end, obs.dialogs_end, &obs.seen, &obs.session_events);
@@ -1645,24 +1794,27 @@ pub fn property() -> Property {
     Property {
         fuzz: vec![],
         id: "C12",
-        rule: "six sub-checks around one incoming INVITE handled by Dialog::new_server + Acceptor under a paused clock. accept_retransmit (enumerated): accept at 0/30 ms x ACK arrival on the grid {+-1 ms around every T1-doubling-capped-at-T2 instant, 64*T1 +-1, never} x ACK CSeq matching / not. reliable_provisional (enumerated): PRACK arrival +-1 ms around every RFC 3262 instant x RAck matching / wrong rseq / wrong cseq. Both grids also over a transport whose every send stays pending 2 / 20 ms, with the ACK / PRACK arriving inside the first send, just after it, inside the send of a copy, and mid-interval. races (random): 1..3 application ops {180, accept, reject, drop} and 1..4 network ops {CANCEL matching / wrong branch / wrong CSeq, BYE, duplicate INVITE, ACK} at instants from {5,6,7,505,506,1505,4000} ms (same instant in both orders), tokio select seed, 1/4 with 2 ms send latency, 1/4 with one of the first six sends refused by the transport (then without request copies). send_faults (enumerated): CANCEL / BYE / both / non-matching CANCEL + BYE meeting the pending INVITE x application {nothing, 180, 180 + accept, 180 + reject} x refused send k=0..4 x both same-instant orders x {unreliable, reliable, 2 ms latency}, judged by the races oracle. established_then_used (enumerated, races oracle): accept at 0 / 30 ms, ACK 1 / 250 / 700 ms later, CANCEL(s) that can no longer cancel {none, at the accept instant, 1 / 100 / 499 / 501 ms after it, with another branch / CSeq, twice, with a copy of the INVITE, after the ACK}, then the peer's re-INVITE / BYE 1 s later or after 64*T1: one 2xx, CANCEL answered 200 / 481, the session does not end before the BYE, the BYE reaches the application and gets 200 (the same is asserted in races whenever an accept succeeds). reliable_sequence (enumerated): two / three reliable provisionals (183, 180) in a row, the earlier one given up after 31*T1 / abandoned by the application after 700, 3000 ms / acknowledged in time, its PRACK in time, late (between the two calls or while the next one waits), twice or never, the next one's PRACK after 250 / 1400 ms or never; per RSeq: first copy at the call, copies on the RFC 3262 schedule until ITS PRACK, the call returns Ok only at a PRACK naming it, a PRACK naming another response than the one that certainly waits is not answered 200. Non-trivial (races, send_faults, established_then_used) = a network op and an application op within 1 ms, or two decisive events at one instant, or a send was refused, or a CANCEL between 2xx and ACK followed by a BYE.",
+        rule: "seven sub-checks around one incoming INVITE handled by Dialog::new_server + Acceptor under a paused clock. accept_retransmit (enumerated): accept at 0/30 ms x ACK arrival on the grid {+-1 ms around every T1-doubling-capped-at-T2 instant, 64*T1 +-1, never} x ACK CSeq matching / not. reliable_provisional (enumerated): PRACK arrival +-1 ms around every RFC 3262 instant x RAck matching / wrong rseq / wrong cseq. Both grids also over a transport whose every send stays pending 2 / 20 ms, with the ACK / PRACK arriving inside the first send, just after it, inside the send of a copy, and mid-interval. races (random): 1..3 application ops {180, accept, reject, drop} and 1..4 network ops {CANCEL matching / wrong branch / wrong CSeq, BYE, duplicate INVITE, ACK} at instants from {5,6,7,505,506,1505,4000} ms (same instant in both orders), tokio select seed, 1/4 with 2 ms send latency, 1/4 with one of the first six sends refused by the transport (then without request copies), 1/4 from an RFC 2543 peer (no magic cookie in its Via branches; then no wrong-branch CANCEL), 1/3 with one of the eight session-timer header sets on the INVITE (Supported: timer and / or Min-SE, Session-Expires: plain, beyond 32 bit, with generic-params, leading zeros). invite_variants (enumerated, races oracle): RFC 2543 peer / each header set / both x 14 histories (CANCEL, BYE, both, copy + CANCELs, wrong-CSeq CANCEL first, accept / reject racing the CANCEL, reject + ACK, accept + ACK (+ late CANCEL, re-INVITE) + BYE, accept never ACKed) x {unreliable, reliable, both same-instant orders, other source port}. send_faults (enumerated): CANCEL / BYE / both / non-matching CANCEL + BYE meeting the pending INVITE x application {nothing, 180, 180 + accept, 180 + reject} x refused send k=0..4 x both same-instant orders x {unreliable, reliable, 2 ms latency}, judged by the races oracle. established_then_used (enumerated, races oracle): accept at 0 / 30 ms, ACK 1 / 250 / 700 ms later, CANCEL(s) that can no longer cancel {none, at the accept instant, 1 / 100 / 499 / 501 ms after it, with another branch / CSeq, twice, with a copy of the INVITE, after the ACK}, then the peer's re-INVITE / BYE 1 s later or after 64*T1: one 2xx, CANCEL answered 200 / 481, the session does not end before the BYE, the BYE reaches the application and gets 200 (the same is asserted in races whenever an accept succeeds). reliable_sequence (enumerated): two / three reliable provisionals (183, 180) in a row, the earlier one given up after 31*T1 / abandoned by the application after 700, 3000 ms / acknowledged in time, its PRACK in time, late (between the two calls or while the next one waits), twice or never, the next one's PRACK after 250 / 1400 ms or never; per RSeq: first copy at the call, copies on the RFC 3262 schedule until ITS PRACK, the call returns Ok only at a PRACK naming it, a PRACK naming another response than the one that certainly waits is not answered 200. Non-trivial (races, send_faults, established_then_used, invite_variants) = a decisive event meets an INVITE from an RFC 2543 peer or with session-timer headers, or a network op and an application op within 1 ms, or two decisive events at one instant, or a send was refused, or a CANCEL between 2xx and ACK followed by a BYE.",
         assumptions: vec![
             "same-instant decisive events may be processed in either order: the INVITE's final code must come from one of them",
             "application ops run in list order; an op may start late because the previous call is still waiting (e.g. for an ACK)",
             "total duration of reliable-provisional retransmission is not asserted (observed instants must be a prefix of the RFC 3262 schedule covering at least the first 3.5 s)",
+            "with an RFC 2543 peer a CANCEL that is to miss the INVITE differs from it in the CSeq number, never only in the Via branch (ezk finds the pending INVITE of a cookie-less CANCEL by CSeq number alone; what a CANCEL with the same CSeq but another top Via does is not generated); CANCELs with different CSeq numbers are different transactions there, the first one matching in both decides; an ACK with the INVITE's CSeq from such a peer belongs to the INVITE's transaction whatever its branch (it ends the retransmission of a rejection), so no copy of the INVITE is generated next to one (a copy after the ACK is a new request)",
+            "what the 2xx says about the session timer (Session-Expires, Require) is not looked at: only that the accept still sends its one 2xx, waits for the ACK and hands out a usable session, whatever Min-SE / Session-Expires the INVITE carried",
             "which of 200/481 an unmatched CANCEL receives is not asserted; a Drop of the acceptor before any decision removes the exactly-one obligation",
             "the scripted application drives an accepted session at once and answers a BYE 200 (process_default), a re-INVITE 488; 'changes nothing' after a late CANCEL is judged by that session: no Terminated before a BYE was handed over, the first BYE is handed over and answered 200",
             "a call of respond_provisional_reliable certainly still waits during the first 3.5 s after its first transmission (and until the application abandons it); only inside that window a matching PRACK must complete it at once and be answered 200, and a PRACK naming another reliable provisional must not be answered 200; what a PRACK gets that arrives for a given-up / abandoned response is not asserted",
             "a final response the transport refused (io::Error from Transport::send) counts as the answer the stack gave to THAT request (its code takes part in winner / exactly-one); the answers owed to the other requests (the 200 of the CANCEL / BYE next to a refused 487 and vice versa) are asserted as without the fault; with a refused send no request copies are generated (a copy arriving after its transaction ended unanswered is a new request)",
             "under send latency d the k-th copy of a 2xx / reliable 1xx is accepted within [nominal, nominal + (k+1)*d]; nothing may be sent after the matching ACK / PRACK arrived, and the waiting call must return within d of it (or of the end of the send it was suspended in)",
         ],
-        explanation: "accept_retransmit, reliable_provisional, send_faults, established_then_used and reliable_sequence enumerate their grids completely; races are sampled",
+        explanation: "accept_retransmit, reliable_provisional, send_faults, established_then_used, invite_variants and reliable_sequence enumerate their grids completely; races are sampled",
         subs: vec![
             enum_sub("accept_retransmit", accept_cases, check_accept),
             enum_sub("reliable_provisional", rel_cases, check_rel),
             prop_sub("races", race_strategy, 1500, 30000, check_race),
             enum_sub("send_faults", fault_cases, check_race),
             enum_sub("established_then_used", established_cases, check_race),
+            enum_sub("invite_variants", variant_cases, check_race),
             enum_sub("reliable_sequence", relseq_cases, check_relseq),
         ],
     }
